@@ -178,7 +178,8 @@ class Net(nn.Module):
                     ms.append(x if m == 'id' else self.blocks[f's{i}m{j}'](x))
                 x = torch.cat(ms, dim=1)
             elif op == 'timecat':
-                x = torch.relu(torch.cat([self.blocks[f's{i}a'](x), self.blocks[f's{i}b'](x)], dim=2))
+                # the time axis spelled as 2 or, equivalently, as -1
+                x = torch.relu(torch.cat([self.blocks[f's{i}a'](x), self.blocks[f's{i}b'](x)], dim=-1 if st.get('neg') else 2))
             elif op == 'pool':
                 x = self.blocks[f's{i}'](x)
             elif op == 'twice':
@@ -456,6 +457,10 @@ def option_deviations(prog, with_fold=True):
         elif s['op'] == 'concat':
             q = _copy(prog)
             q['stages'][i]['k'] = 5
+            out.append(q)
+        elif s['op'] == 'timecat':
+            q = _copy(prog)
+            q['stages'][i]['neg'] = True
             out.append(q)
     for o in HEAD_OPTS[prog['head']['kind']]:
         q = _copy(prog)
